@@ -168,14 +168,20 @@ Q q_from_su_container()
 // =====================================================================================================================
 // lookups: must answer like std::set and leave the set alone
 // =====================================================================================================================
-Q q_find() { M m{}; void* p = mk(m, NA); int x = vf_nd_i32(); unsigned e = m.find(x);
-    vf_assert(k_find(p, x) == e, "find(key) == std::set"); vf_assert(k_find_c(p, x) == e, "find(key) const == std::set"); wit_key(m, x); chk(p, m); }
-Q q_contains() { M m{}; void* p = mk(m, NA); int x = vf_nd_i32(); vf_assert(k_contains(p, x) == m.contains(x), "contains(key) == std::set"); wit_key(m, x); chk(p, m); }
-Q q_count() { M m{}; void* p = mk(m, NA); int x = vf_nd_i32(); vf_assert(k_count(p, x) == m.count(x), "count(key) == std::set"); wit_key(m, x); chk(p, m); }
-Q q_lower_bound() { M m{}; void* p = mk(m, NA); int x = vf_nd_i32(); unsigned e = m.lower_bound(x);
-    vf_assert(k_lower_bound(p, x) == e, "lower_bound(key) == std::set"); vf_assert(k_lower_bound_c(p, x) == e, "lower_bound(key) const == std::set"); wit_key(m, x); chk(p, m); }
-Q q_upper_bound() { M m{}; void* p = mk(m, NA); int x = vf_nd_i32(); unsigned e = m.upper_bound(x);
-    vf_assert(k_upper_bound(p, x) == e, "upper_bound(key) == std::set"); vf_assert(k_upper_bound_c(p, x) == e, "upper_bound(key) const == std::set"); wit_key(m, x); chk(p, m); }
+Q q_find() // find (both overloads), contains, count of one key
+{
+    M m{}; void* p = mk(m, NA); int x = vf_nd_i32(); unsigned e = m.find(x);
+    vf_assert(k_find(p, x) == e, "find(key) == std::set"); vf_assert(k_find_c(p, x) == e, "find(key) const == std::set");
+    vf_assert(k_contains(p, x) == m.contains(x), "contains(key) == std::set"); vf_assert(k_count(p, x) == m.count(x), "count(key) == std::set");
+    wit_key(m, x); chk(p, m);
+}
+Q q_bounds() // lower_bound, upper_bound (both overloads each) of one key
+{
+    M m{}; void* p = mk(m, NA); int x = vf_nd_i32(); unsigned l = m.lower_bound(x), u = m.upper_bound(x);
+    vf_assert(k_lower_bound(p, x) == l, "lower_bound(key) == std::set"); vf_assert(k_lower_bound_c(p, x) == l, "lower_bound(key) const == std::set");
+    vf_assert(k_upper_bound(p, x) == u, "upper_bound(key) == std::set"); vf_assert(k_upper_bound_c(p, x) == u, "upper_bound(key) const == std::set");
+    wit_key(m, x); chk(p, m);
+}
 Q q_equal_range()
 {
     M m{}; void* p = mk(m, NA); int x = vf_nd_i32(); u64* s = (u64*)vf_alloc(8); u64* s2 = (u64*)vf_alloc(8);
@@ -198,14 +204,20 @@ Q q_equal_range()
 #define KN_FIND_H(m, x) do { } while (0)
 #define FIND_H_OPEN false
 #endif
-Q q_find_h() { M m{}; void* p = mk(m, NA); int x = vf_nd_i32(); KN_FIND_H(m, x); unsigned e = m.find(x);
-    vf_assert(k_find_h(p, x) == e, "find(K) == std::set"); vf_assert(k_find_hc(p, x) == e, "find(K) const == std::set"); wit_key(m, x, !FIND_H_OPEN, true, !FIND_H_OPEN); chk(p, m); }
-Q q_contains_h() { M m{}; void* p = mk(m, NA); int x = vf_nd_i32(); KN_FIND_H(m, x); vf_assert(k_contains_h(p, x) == m.contains(x), "contains(K) == std::set"); wit_key(m, x, !FIND_H_OPEN, true, !FIND_H_OPEN); chk(p, m); }
-Q q_count_h() { M m{}; void* p = mk(m, NA); int x = vf_nd_i32(); KN_FIND_H(m, x); vf_assert(k_count_h(p, x) == m.count(x), "count(K) == std::set"); wit_key(m, x, !FIND_H_OPEN, true, !FIND_H_OPEN); chk(p, m); }
-Q q_lower_bound_h() { M m{}; void* p = mk(m, NA); int x = vf_nd_i32(); unsigned e = m.lower_bound(x);
-    vf_assert(k_lower_bound_h(p, x) == e, "lower_bound(K) == std::set"); vf_assert(k_lower_bound_hc(p, x) == e, "lower_bound(K) const == std::set"); wit_key(m, x); chk(p, m); }
-Q q_upper_bound_h() { M m{}; void* p = mk(m, NA); int x = vf_nd_i32(); unsigned e = m.upper_bound(x);
-    vf_assert(k_upper_bound_h(p, x) == e, "upper_bound(K) == std::set"); vf_assert(k_upper_bound_hc(p, x) == e, "upper_bound(K) const == std::set"); wit_key(m, x); chk(p, m); }
+Q q_find_h()
+{
+    M m{}; void* p = mk(m, NA); int x = vf_nd_i32(); KN_FIND_H(m, x); unsigned e = m.find(x);
+    vf_assert(k_find_h(p, x) == e, "find(K) == std::set"); vf_assert(k_find_hc(p, x) == e, "find(K) const == std::set");
+    vf_assert(k_contains_h(p, x) == m.contains(x), "contains(K) == std::set"); vf_assert(k_count_h(p, x) == m.count(x), "count(K) == std::set");
+    wit_key(m, x, !FIND_H_OPEN, true, !FIND_H_OPEN); chk(p, m);
+}
+Q q_bounds_h()
+{
+    M m{}; void* p = mk(m, NA); int x = vf_nd_i32(); unsigned l = m.lower_bound(x), u = m.upper_bound(x);
+    vf_assert(k_lower_bound_h(p, x) == l, "lower_bound(K) == std::set"); vf_assert(k_lower_bound_hc(p, x) == l, "lower_bound(K) const == std::set");
+    vf_assert(k_upper_bound_h(p, x) == u, "upper_bound(K) == std::set"); vf_assert(k_upper_bound_hc(p, x) == u, "upper_bound(K) const == std::set");
+    wit_key(m, x); chk(p, m);
+}
 Q q_equal_range_h()
 {
     M m{}; void* p = mk(m, NA); int x = vf_nd_i32(); u64* s = (u64*)vf_alloc(8); u64* s2 = (u64*)vf_alloc(8);
